@@ -32,19 +32,24 @@ assert os.path.realpath(anyio.__file__).startswith(os.path.realpath(_src)), (
 )
 
 logging.getLogger("asyncio").setLevel(logging.CRITICAL)
+# The cyclic GC must never run *during* an execution: collecting the pending coroutines of an
+# earlier (aborted) execution runs their finally blocks, and anyio code in them would schedule
+# callbacks on whatever loop is running at that moment.  Collection happens between executions.
+gc.disable()
 sys.unraisablehook = lambda *a, **k: None
 
 # ---------------------------------------------------------------------------------------
 # deterministic hashing of tasks and cancel scopes (set iteration order)
 # ---------------------------------------------------------------------------------------
 
-_state = {"n": 0, "salt": 1}
+_state = {"n": 0, "salt": 1, "tasks": [], "execs": 0}
 
 
 class DetTask(asyncio.Task):
     def __init__(self, coro, **kw):
         _state["n"] += 1
         self._det_id = _state["n"]
+        _state["tasks"].append(self)
         super().__init__(coro, **kw)
 
     def __hash__(self):
@@ -205,6 +210,8 @@ def execute(build, prefix=(), *, eager=False, salt=1, fine=False, horizon=5000,
     """Run one execution.  ``build(world)`` returns the main coroutine function."""
     _state["n"] = 0
     _state["salt"] = salt
+    _state["tasks"] = []
+    _state["execs"] += 1
     if controller is not None:
         ctl = controller
         chooser = ctl.chooser
@@ -260,6 +267,31 @@ def execute(build, prefix=(), *, eager=False, salt=1, fine=False, horizon=5000,
             loop.close()
         except Exception:
             pass
+    # Keep the process-global registries small: aborted executions leave pending tasks, and
+    # tasks of different executions share hash values (creation counters), so anything left
+    # in asyncio's / anyio's weak registries would make every later lookup collide.
+    ts = getattr(_aio, "_task_states", None)
+    for t in _state["tasks"]:
+        asyncio._unregister_task(t)
+        if ts is not None:
+            try:
+                ts.pop(t, None)
+            except Exception:
+                pass
+    _state["tasks"] = []
+    if not keep_world:
+        world.objs.clear()
+        world.tasks.clear()
+        world.interp = None
+        loop._ready.clear()
+        loop._scheduled.clear()
+        loop.ctl = None
+        ctl.actions = []
+    if _state["execs"] == 1:
+        gc.collect()
+        gc.freeze()
+    elif _state["execs"] % 200 == 0:
+        gc.collect()
     return ex
 
 
